@@ -119,7 +119,11 @@ def step (s : SSt) : Seg → SSt × List Op
     ({ cur := q, start := s.start, quadCtl := some c }, [elevate s.cur c q])
   | .arc rel a =>
     let q := toAbs rel s.cur a.p
-    ({ cur := q, start := s.start }, [.arc a.rx a.ry a.rot a.large a.sweep q])
+    -- F.6.2: a zero radius makes the arc a straight line to the end point; identical end points: the
+    -- segment is omitted
+    if a.rx == 0 || a.ry == 0 then ({ cur := q, start := s.start }, [.lineTo q])
+    else if q == s.cur then ({ cur := q, start := s.start }, [])
+    else ({ cur := q, start := s.start }, [.arc a.rx a.ry a.rot a.large a.sweep q])
   | .close =>
     -- the current point returns to the sub-path start; a following non-moveto command starts a new
     -- sub-path at the same initial point (the start is kept)
